@@ -38,7 +38,7 @@ func load(repo string) (*loaded, error) {
 	if len(pkgs[0].Errors) > 0 {
 		return nil, fmt.Errorf("package errors: %v", pkgs[0].Errors)
 	}
-	prog, spkgs := ssautil.AllPackages(pkgs, ssa.BuilderMode(0))
+	prog, spkgs := ssautil.AllPackages(pkgs, ssa.GlobalDebug)
 	prog.Build()
 	l := &loaded{prog: prog, spkg: spkgs[0], pkg: pkgs[0], funcs: map[string]*ssa.Function{}}
 	for fn := range ssautil.AllFunctions(prog) {
